@@ -100,6 +100,7 @@ def cases(draw, tier):
         "max_bursts": 4 if tier == "quick" else 7,
         "max_ops": 5,
         "makedirs": True,
+        "move_in_replace": True,
         "weights": {"mkdir": 6, "makedirs": 6, "rename": 9, "move_in": 6, "create": 1, "write": 1, "read": 0, "chmod": 0, "unlink": 1, "replace": 3, "rmtree": 3, "move_out": 2},
     }
     h = draw(fsops.histories(opts))
